@@ -1527,6 +1527,13 @@ fn interpolate_string(
         Err(Error::AtLoc{source: Box::new(source), line: *line, col})
     };
 
+    // Slot offsets count characters, but strings are sliced by byte offsets.
+    let byte_offsets: Vec<usize> =
+        s.char_indices()
+            .map(|(i, _)| i)
+            .chain(std::iter::once(s.len()))
+            .collect();
+
     let parser = ExprParser::new();
 
     let mut result: Vec<String> = vec![];
@@ -1535,11 +1542,15 @@ fn interpolate_string(
 
     for cur_slot in interpolation_slots {
         let (cur_slot_start, cur_slot_end) = cur_slot;
-        result.push(s[last_slot_end .. *cur_slot_start].to_string());
+        let prefix_start = byte_offsets[last_slot_end];
+        let prefix_end = byte_offsets[*cur_slot_start];
+        result.push(s[prefix_start .. prefix_end].to_string());
 
         // We shorten the slot to skip the delimiters (`${` at the start and
         // `}` at the end).
-        let directive = &s[(cur_slot_start+2) .. (cur_slot_end-1)];
+        let directive_start = byte_offsets[cur_slot_start+2];
+        let directive_end = byte_offsets[cur_slot_end-1];
+        let directive = &s[directive_start .. directive_end];
 
         let slot_col = col + cur_slot_start + 4;
 
@@ -1593,7 +1604,7 @@ fn interpolate_string(
         last_slot_end = *cur_slot_end;
     }
 
-    result.push(s[last_slot_end ..].to_string());
+    result.push(s[byte_offsets[last_slot_end] ..].to_string());
 
     Ok(result.join(""))
 }
